@@ -15,7 +15,7 @@ for d in sorted(os.listdir(os.path.join(ROOT, "seeded"))):
     subprocess.run(["git", "-C", "/repo", "apply", os.path.join(ROOT, "seeded", d, "patch.diff")], check=True)
     try:
         t0 = time.time()
-        env = dict(os.environ); env.setdefault("VERIF_MAX_S", "120")
+        env = dict(os.environ); env.setdefault("VERIF_MAX_S", "120"); env.setdefault("VERIF_SHRINK_S", "3")
         r = subprocess.run([os.path.join(ROOT, "check"), prop, "quick"], capture_output=True, text=True, env=env)
         classes = sorted(set(re.findall(r"^\s+(C\d+/\S+)", r.stderr, re.M)))
         nviol = len([l for l in r.stdout.splitlines() if l.startswith("VIOLATION")])
